@@ -18,7 +18,7 @@ package json
 
 // C02 (integers): the value handed to strconv is the mathematical value of the
 // argument, in base 10; strconv's decimal text is trusted to denote it.
-//@ track IP.String, IPNet.String, HardwareAddr.String, appendStringComplex, appendBytesComplex, utf8.DecodeRuneInString, utf8.DecodeRune, strconv.AppendInt, strconv.AppendUint, strconv.AppendBool, strconv.AppendFloat, math.IsNaN, math.IsInf, Time.Unix, Time.UnixNano, Time.AppendFormat, Encoder.AppendFloat64
+//@ track appendUnixTimes, appendUnixNanoTimes, IP.String, IPNet.String, HardwareAddr.String, appendStringComplex, appendBytesComplex, utf8.DecodeRuneInString, utf8.DecodeRune, strconv.AppendInt, strconv.AppendUint, strconv.AppendBool, strconv.AppendFloat, math.IsNaN, math.IsInf, Time.Unix, Time.UnixNano, Time.AppendFormat, Encoder.AppendFloat64
 
 //@ var JSONMarshalFunc(v) res, err
 //@   modifies nothing
@@ -386,9 +386,30 @@ out += '''
 //@   ensures [C02] format != timeFormatUnix && format != timeFormatUnixMs && format != timeFormatUnixMicro && format != timeFormatUnixNano ==> ncalls(Time.AppendFormat) == old(ncalls(Time.AppendFormat)) + 1 && callarg(Time.AppendFormat, old(ncalls(Time.AppendFormat)), 0) == t && callarg(Time.AppendFormat, old(ncalls(Time.AppendFormat)), 2) == format && ncalls(strconv.AppendInt) == old(ncalls(strconv.AppendInt))
 //@   ensures [C02] format != timeFormatUnix && format != timeFormatUnixMs && format != timeFormatUnixMicro && format != timeFormatUnixNano ==> len(res) >= len(dst) + 2 && res[len(dst)] == '"' && res[len(res)-1] == '"'
 '''
-out += arr('AppendTimes', 'format', extra_req=' && cleanlayout(format)')
-out += arr('appendUnixTimes', '', recv='')
-out += arr('appendUnixNanoTimes', 'div', extra_req=' && div != 0', recv='')
+def timesarr(name, params, src, conv, extra_req=''):
+    base = arr(name, params, extra_req=extra_req, recv='')
+    head, loop = base.split('//@   loop 1:\n')
+    A='strconv.AppendInt'
+    return head + f'''//@   ensures [C02] ncalls({src}) == old(ncalls({src})) + len(vals) && ncalls({A}) == old(ncalls({A})) + len(vals)
+//@   ensures [C02] forall j in old(ncalls({src}))..ncalls({src}): callarg({src}, j, 0) == vals[j - old(ncalls({src}))]
+//@   ensures [C02] forall j in old(ncalls({A}))..ncalls({A}): callarg({A}, j, 1) == callres({src}, old(ncalls({src})) + (j - old(ncalls({A}))), 0){conv} && callarg({A}, j, 2) == 10
+//@   loop 1:
+''' + loop.rstrip('\n') + f'''
+//@     invariant [C02] ncalls({src}) == old(ncalls({src})) + rangeindex + 2 && ncalls({A}) == old(ncalls({A})) + rangeindex + 2
+//@     invariant [C02] forall j in old(ncalls({src}))..ncalls({src}): callarg({src}, j, 0) == vals[j - old(ncalls({src}))]
+//@     invariant [C02] forall j in old(ncalls({A}))..ncalls({A}): callarg({A}, j, 1) == callres({src}, old(ncalls({src})) + (j - old(ncalls({A}))), 0){conv} && callarg({A}, j, 2) == 10
+'''
+
+_at = arr('AppendTimes', 'format', extra_req=' && cleanlayout(format)')
+_h, _l = _at.split('//@   loop 1:\n')
+out += _h + '''//@   ensures [C02] format == timeFormatUnix ==> ncalls(appendUnixTimes) == old(ncalls(appendUnixTimes)) + 1 && same(callarg(appendUnixTimes, old(ncalls(appendUnixTimes)), 1), vals) && ncalls(appendUnixNanoTimes) == old(ncalls(appendUnixNanoTimes))
+//@   ensures [C02] format == timeFormatUnixMs ==> ncalls(appendUnixNanoTimes) == old(ncalls(appendUnixNanoTimes)) + 1 && same(callarg(appendUnixNanoTimes, old(ncalls(appendUnixNanoTimes)), 1), vals) && callarg(appendUnixNanoTimes, old(ncalls(appendUnixNanoTimes)), 2) == 1000000 && ncalls(appendUnixTimes) == old(ncalls(appendUnixTimes))
+//@   ensures [C02] format == timeFormatUnixMicro ==> ncalls(appendUnixNanoTimes) == old(ncalls(appendUnixNanoTimes)) + 1 && same(callarg(appendUnixNanoTimes, old(ncalls(appendUnixNanoTimes)), 1), vals) && callarg(appendUnixNanoTimes, old(ncalls(appendUnixNanoTimes)), 2) == 1000 && ncalls(appendUnixTimes) == old(ncalls(appendUnixTimes))
+//@   ensures [C02] format == timeFormatUnixNano ==> ncalls(appendUnixNanoTimes) == old(ncalls(appendUnixNanoTimes)) + 1 && same(callarg(appendUnixNanoTimes, old(ncalls(appendUnixNanoTimes)), 1), vals) && callarg(appendUnixNanoTimes, old(ncalls(appendUnixNanoTimes)), 2) == 1 && ncalls(appendUnixTimes) == old(ncalls(appendUnixTimes))
+//@   loop 1:
+''' + _l
+out += timesarr('appendUnixTimes', '', 'Time.Unix', '')
+out += timesarr('appendUnixNanoTimes', 'div', 'Time.UnixNano', ' / div', extra_req=' && div != 0')
 out += '''
 //@ func (Encoder).AppendDuration(e, dst, d, unit, useInt, precision) res
 //@   props C01
